@@ -4,9 +4,51 @@ open A07lib
 
 (* passes field: "<p>" or "<p>L" (provider with preload: the deliveries must be the same) *)
 let passes_of (p : string) : int =
+  let p = (match String.index_opt p '%' with Some i -> String.sub p 0 i | None -> p) in
   let p = (match String.index_opt p '@' with Some i -> String.sub p 0 i | None -> p) in
   let n = String.length p in
   if n > 0 && p.[n - 1] = 'L' then int_of_string (String.sub p 0 (n - 1)) else int_of_string p
+
+(* "@<digits>": the instance schedule of the case, if any *)
+let sched_of (p : string) : int list option =
+  let p = (match String.index_opt p '%' with Some i -> String.sub p 0 i | None -> p) in
+  match String.index_opt p '@' with
+  | None -> None
+  | Some i ->
+      let s = String.sub p (i + 1) (String.length p - i - 1) in
+      Some (List.init (String.length s) (fun j -> Char.code s.[j] - 48))
+
+(* a schedule must make exactly k Acquires (an event of an instance that holds nothing) *)
+let sched_acquires (evs : int list) : int =
+  let holding = Hashtbl.create 8 in
+  List.fold_left (fun n i ->
+    if Hashtbl.mem holding i then (Hashtbl.remove holding i; n)
+    else (Hashtbl.replace holding i (); n + 1)) 0 evs
+
+(* the model's run under the schedule: the deliveries go through the extracted schedule model
+   (fresh reader object per delivery); each is printed as it is seen when its instance shoots *)
+let sched_run (p : string) (k : int) (body_of : 'e -> n list) (with_body : 'e -> n list -> 'e)
+    (rs : 'e sres list) : 'e sres list option =
+  match sched_of p with
+  | None -> Some rs
+  | Some evs ->
+      if sched_acquires evs <> k || List.exists (fun i -> i < 0 || i > 9) evs then None
+      else begin
+        let rec split acc = function
+          | SDeliver e :: r -> split (e :: acc) r
+          | rest -> (List.rev acc, rest) in
+        let (es, rest) = split [] rs in
+        let ds = List.map (fun e -> (e, body_of e)) es in
+        let obs = sched_obs Fresh (List.map nat_of_int evs) ds in
+        Some (List.map (function
+                | Some (e, b) -> SDeliver (with_body e b)
+                | None -> SErr EUnexpected) obs @ rest)
+      end
+
+let entry_body (e : entry) = e.e_body
+let entry_with_body (e : entry) b = { e with e_body = b }
+let rentry_body (e : rentry) = e.rb_buf
+let rentry_with_body (e : rentry) b = { e with rb_buf = b }
 
 let count_req toks = List.length (List.filter (function TR _ -> true | _ -> false) toks)
 
@@ -28,7 +70,8 @@ let predict (c : string) (obs : string) : string * string * bool =
       else begin
         let n = count_req toks in
         let k = passes_of p * n + 1 in
-        let pred = print_run bld_entry k (uri_decode url_parse max_token cfg0 (nat_of_int k) fileb) in
+        let pred = (match sched_run p k entry_body entry_with_body (uri_decode url_parse max_token cfg0 (nat_of_int k) fileb) with
+                    | Some rs -> print_run bld_entry k rs | None -> "bad-schedule") in
         let want = print_expected bld_entry k (uri_entries (List.map fst items) []) in
         let wf = List.for_all (wf_uitem url_parse max_token) items in
         (pred, verdict (obs = want) ("expected " ^ want), n >= 2 && wf)
@@ -44,7 +87,8 @@ let predict (c : string) (obs : string) : string * string * bool =
       else begin
         let n = count_req toks in
         let k = passes_of p * n + 1 in
-        let pred = print_run bld_entry k (uripost_decode url_parse cfg0 (nat_of_int k) fileb) in
+        let pred = (match sched_run p k entry_body entry_with_body (uripost_decode url_parse cfg0 (nat_of_int k) fileb) with
+                    | Some rs -> print_run bld_entry k rs | None -> "bad-schedule") in
         let want = print_expected bld_entry k (uripost_entries (List.map fst items) []) in
         finish obs k pred want n (List.for_all (wf_pitem url_parse) items)
       end
@@ -59,7 +103,8 @@ let predict (c : string) (obs : string) : string * string * bool =
       else begin
         let n = count_req toks in
         let k = passes_of p * n + 1 in
-        let pred = print_run bld_raw k (raw_decode cfg0 (nat_of_int k) fileb) in
+        let pred = (match sched_run p k rentry_body rentry_with_body (raw_decode cfg0 (nat_of_int k) fileb) with
+                    | Some rs -> print_run bld_raw k rs | None -> "bad-schedule") in
         let want = print_expected bld_raw k (raw_entries (List.map fst items)) in
         finish obs k pred want n (List.for_all wf_ritem items)
       end
@@ -81,8 +126,10 @@ let predict (c : string) (obs : string) : string * string * bool =
           if is_arr then
             (match json_array_decode url_parse cfg0 (nat_of_int k) ents with
              | None -> "newerr"
-             | Some rs -> print_run bld_entry k rs)
-          else print_run bld_entry k (json_stream_decode url_parse cfg0 (nat_of_int k) ents JEof) in
+             | Some rs -> (match sched_run p k entry_body entry_with_body rs with
+                           | Some rs -> print_run bld_entry k rs | None -> "bad-schedule"))
+          else (match sched_run p k entry_body entry_with_body (json_stream_decode url_parse cfg0 (nat_of_int k) ents JEof) with
+                | Some rs -> print_run bld_entry k rs | None -> "bad-schedule") in
         let es = List.filter_map (fun d -> match entity_entry url_parse d with Inl e -> Some e | Inr _ -> None) ents in
         let want = if List.length es <> n then "entity-rejected" else print_expected bld_entry k es in
         finish obs k pred want n (List.length es = n)
